@@ -1451,8 +1451,10 @@ class LoopInvariant:
     (proved or recorded, per the assert mode). After the loop the variables modified by the body are
     arbitrary values satisfying inv(., n)."""
 
-    def __init__(self, inv, name="loop", tags=None, facts=None):
-        self.inv, self.name, self.tags, self.facts = inv, name, tags, facts
+    def __init__(self, inv, name="loop", tags=None, facts=None, peel=False):
+        """peel=True: the first iteration (i = 0, needs n >= 1 as a WF obligation) is executed from the entry state, the
+        rule is applied to iterations 1..n-1: for loops whose carried variables change shape / type in the first iteration."""
+        self.inv, self.name, self.tags, self.facts, self.peel = inv, name, tags, facts, peel
 
     def __call__(self, interp, st, env, fr, it):
         from .core import input_tensor
@@ -1488,15 +1490,27 @@ class LoopInvariant:
                 else:
                     raise Unsupported(f"loop-modified variable {m} of type {type(v).__name__}")
 
+        first = 0
+        if self.peel:
+            ctx.wf(f"loop-peel-nonempty {tag}", zint(n) >= 1)
+            if self.facts is not None:
+                for f in self.facts(env, 0):
+                    ctx.assume(f)
+            interp.assign(st.target, elem_of(0), env, fr)
+            try:
+                interp.exec_block(st.body, env, fr)
+            except (BreakEx, ContinueEx):
+                raise Unsupported("break/continue in a loop verified by invariant")
+            first = 1
         # 1. initiation
-        oblige("init", 0, env)
+        oblige("init", first, env)
         # 2. preservation: arbitrary iteration i from an arbitrary state satisfying the invariant
         i = z3.Int(f"{tag}.iter")
         ctx.scalars[f"{tag}.iter"] = (i, "i")
         saved_hyps, saved_path = list(ctx.hyps), list(ctx.path)
         body_env = env
         havoc(body_env, "pre")
-        ctx.assume(z3.And(i >= 0, i < zint(n)))
+        ctx.assume(z3.And(i >= first, i < zint(n)))
         for lbl, f in self.inv(body_env, i):
             ctx.assume(f)
         if self.facts is not None:
